@@ -662,6 +662,11 @@ class Analyzer:
             scrut = n["e"]
             sc = sir.strip_ref(scrut)
             peek = self.is_peek(scrut)
+            if peek and sc.get("k") == "try":
+                # `match ps.peek()? { 'a' => .., _ => .. }`: the arms see the character itself, the input is non-empty in all of them
+                states = self.eval(sc, states, fl)
+                peek = False
+                scrut = sc = {"k": "lit", "t": "char", "v": "?", "sp": sc.get("sp", [0, 0, 0, 0])}
             c, forced = (None, None) if peek else self.cursor_call(scrut)
             tagvar = sc["s"] if sc.get("k") == "path" and len(sc["segs"]) == 1 and any(s.outcome(sc["s"]) for s in states) else None
             if peek or tagvar:
@@ -844,6 +849,14 @@ class Analyzer:
             e = sir.strip_ref(lp["cond"]["e"])
             if e.get("k") == "mcall" and e["m"] in ("pop", "pop_front", "next") and sir.root_expr_name(e["recv"]) not in self.cfg.cursor_names:
                 return True
+        if lp.get("k") == "loop" and lp["body"].get("k") == "block" and lp["body"]["stmts"]:
+            # `loop { let Some(x) = it.next() else { break }; .. }` over an iterator that is not the input cursor: a `while let` in disguise
+            st = lp["body"]["stmts"][0]
+            if st.get("k") == "local" and st.get("else") is not None and st.get("init") is not None:
+                e = sir.strip_ref(st["init"])
+                leaves = any(x.get("k") in ("break", "return") for x in sir.walk(st["else"]))
+                if e.get("k") == "mcall" and e["m"] in ("pop", "pop_front", "next") and not e["args"] and sir.root_expr_name(e["recv"]) not in self.cfg.cursor_names and leaves:
+                    return True
         return False
 
     def check_loops(self):
